@@ -102,7 +102,9 @@ def scheduleCacheDiffs (nw : Network) (s : Schedule) : List String :=
   let costs := sumNat (s.tours.map (fun p => p.2.costs)) + nw.numberOfServiceNodes * nw.cStaff
   let un := nw.allServiceNodes.map (fun n =>
     Schedule.unservedAt nw n ((s.formationOf n).filterMap s.typeOf?))
-  let viol := sumInt (nw.typeIdxs.map (fun vt => (s.transitionOf vt).totalViolation))
+  -- from scratch: per cycle the positive part of the counter recomputed from the tours
+  let viol := sumInt (nw.typeIdxs.map (fun vt => sumInt ((s.transitionOf vt).cycles.map (fun c =>
+    posMax0 ((cycleCounterRef nw s.tours c.vehicles).getD 0)))))
   tourDiffs ++
   (if s.costs == costs then [] else ["schedule-costs"]) ++
   (if s.unserved == (sumNat (un.map (·.1)), sumNat (un.map (·.2))) then [] else ["unserved-passengers"]) ++
